@@ -6,6 +6,7 @@ import (
 	"encoding/json"
 	"fmt"
 	"os"
+	"runtime"
 	"sort"
 	"strings"
 	"testing"
@@ -35,6 +36,9 @@ type Outcome struct {
 	SimTime    time.Duration
 	Steps      int
 	LogLines   []string
+	// FreeRunning marks an engine-B outcome: the fine interleaving is not under the simulator's control, so a
+	// failure is confirmed by repeated replay in a fresh process instead of by in-process re-execution.
+	FreeRunning bool
 }
 
 func (o *Outcome) count(k string, n int) {
@@ -59,6 +63,7 @@ type Prop struct {
 	New         func() any
 	Exec        func(t *testing.T, sc any, keepLog bool) *Outcome
 	Shrink      func(sc any) []any
+	EngineB     bool // free-running engine: unconfirmed failures are settled by repeated fresh-process replay
 	// PerRunBudget: quick/thorough number of runs wanted in total (driver splits among workers)
 	QuickRuns    int
 	ThoroughRuns int
@@ -162,6 +167,14 @@ func runWorker(t *testing.T) {
 	replayDir := os.Getenv("VERIF_REPLAY_DIR")
 	maxViol := envInt("VERIF_MAX_VIOL", 3)
 
+	debug := os.Getenv("VERIF_DEBUG") != ""
+	completed := false
+	defer func() {
+		if !completed {
+			// the worker goroutine is being torn down (runtime.Goexit or panic) before the summary was written
+			fmt.Fprintf(os.Stderr, "HARNESS-ERROR worker aborted before writing its summary\n%s\n", debugStack())
+		}
+	}()
 	start := time.Now()
 	sum := &summary{Property: id, Counters: map[string]int{}, SeedHashes: map[string]string{}}
 	distinct := map[uint64]bool{}
@@ -173,7 +186,13 @@ func runWorker(t *testing.T) {
 		}
 		seed := seedFor(base, i)
 		sc := p.Gen(seed, tier)
+		if debug {
+			fmt.Fprintf(os.Stderr, "DEBUG run %d seed %d start\n", i, seed)
+		}
 		o := p.Exec(t, sc, false)
+		if debug {
+			fmt.Fprintf(os.Stderr, "DEBUG run %d done fail=%v\n", i, o.Fail != nil)
+		}
 		sum.Runs++
 		sum.SimSeconds += o.SimTime.Seconds()
 		sum.Steps += o.Steps
@@ -219,6 +238,7 @@ func runWorker(t *testing.T) {
 	}
 	sort.Strings(sum.Distinct)
 	sum.WallS = time.Since(start).Seconds()
+	completed = true
 	b, _ := json.Marshal(sum)
 	if out == "" {
 		fmt.Println(string(b))
@@ -233,7 +253,7 @@ func handleFailure(t *testing.T, p *Prop, sc any, o *Outcome, seed uint64, dir s
 	orig, _ := json.Marshal(sc)
 	best := cloneScenario(p, sc)
 	v := violationOut{Oracle: o.Fail.Oracle, Msg: o.Fail.Msg, Sig: o.Fail.Sig, Seed: seed, ShrunkFrom: len(orig)}
-	if strings.HasSuffix(o.Fail.Oracle, ".race") {
+	if strings.HasSuffix(o.Fail.Oracle, ".race") || o.FreeRunning {
 		// The race detector reports a given race once per process, so a race cannot be confirmed or
 		// minimised by re-executing here: the replay file is written as is and the driver confirms it
 		// in a fresh process before anything is reported.
@@ -244,6 +264,14 @@ func handleFailure(t *testing.T, p *Prop, sc any, o *Outcome, seed uint64, dir s
 	}
 	bestOut := p.Exec(t, cloneScenario(p, best), false)
 	if bestOut.Fail == nil || bestOut.Fail.Oracle != o.Fail.Oracle {
+		if p.EngineB {
+			// free-running engine: the failure may depend on the fine interleaving; leave the verdict to
+			// repeated replay in a fresh process
+			b, _ := json.MarshalIndent(best, "", " ")
+			v.Scenario = b
+			writeReplay(p, &v, seed, o.LogHash, dir)
+			return v
+		}
 		// not reproducible in-process: a harness determinism defect, reported as such by the driver
 		v.Oracle = "HARNESS-NONDETERMINISM:" + o.Fail.Oracle
 		v.Scenario = orig
@@ -310,7 +338,7 @@ func replay(t *testing.T, p *Prop, path string) {
 		os.Exit(2)
 	}
 	o := p.Exec(t, sc, os.Getenv("VERIF_VERBOSE") != "")
-	if strings.HasSuffix(rf.Oracle, ".race") {
+	if strings.HasSuffix(rf.Oracle, ".race") || o.FreeRunning || p.EngineB {
 		// A race report depends on which of the schedules admitted by the coarse (simulated-time)
 		// schedule the OS threads take: repeat the scenario until the detector reports the pair again.
 		for i := 0; i < 40 && (o.Fail == nil || o.Fail.Oracle != rf.Oracle); i++ {
@@ -347,4 +375,9 @@ func dropIndex[T any](s []T, i int) []T {
 	o := make([]T, 0, len(s)-1)
 	o = append(o, s[:i]...)
 	return append(o, s[i+1:]...)
+}
+
+func debugStack() string {
+	buf := make([]byte, 1<<16)
+	return string(buf[:runtime.Stack(buf, false)])
 }
